@@ -174,7 +174,11 @@ Fixpoint trunc_segs (first : bool) (segs : list seg) (o : Z) : list seg :=
 Definition truncate (l : log) (o : Z) : log :=
   match find_segment (l_segs l) o with
   | None => l
-  | Some _ => mkLog (trunc_segs true (l_segs l) o) (l_hw l) (cache_clear_latest (l_cache l) o) (l_ro l)
+  | Some _ =>
+    let segs := trunc_segs true (l_segs l) o in
+    (* epochs that start at or after the offset go, and so do those that start beyond the new log
+       end (the two differ only in a log with a hole below the offset) *)
+    mkLog segs (l_hw l) (cache_clear_latest (l_cache l) (Z.min o (s_next (last segs dummy_seg)))) (l_ro l)
   end.
 
 (* ---- Close + New on the same directory ---- *)
